@@ -106,6 +106,7 @@ func verifIsSym(x any) bool               { return false }
 func verifConcretize(x int) int           { return x }
 func verifChoice(id string, n int) int    { return 0 }
 func verifTreeEq(a, b any, mode int) bool { return false }
+func verifInSet(b byte, set string) bool  { return false }
 `
 
 func loadProgram(verifDir string, patterns []string, harnessPkg, harnessFn string) (*ProgramCtx, error) {
